@@ -37,6 +37,7 @@ type config struct {
 	FuzzSeconds    int      // wall-clock slice per fuzz target
 	Assumptions    []string
 	Env            []string // extra environment for the shards
+	StmtProbe      bool     // C20: build cmd/c20probe with -cover and feed its statement counts to shard 0
 }
 
 var verifDir, repoDir string
@@ -368,6 +369,17 @@ func run(id string, cfg config, tier string, seed int64, work string, replayPath
 		}
 	}
 
+	// --- statement-count probe (C20) -------------------------------------------------------------------
+	if cfg.StmtProbe {
+		path, err := runStmtProbe(work)
+		if err != nil {
+			fmt.Fprintf(os.Stderr, "INCONCLUSIVE: statement-count probe: %v\n", err)
+			return 2
+		}
+		cfg.Env = append(cfg.Env, "VERIF_C20_STMTS="+path)
+	}
+	cfg.Env = append(cfg.Env, "VERIF_TIER_NAME="+tier)
+
 	// --- rapid shards --------------------------------------------------------------------------------
 	shards, checks := cfg.QuickShards, cfg.QuickChecks
 	timeout := 15 * time.Minute
@@ -568,6 +580,71 @@ func run(id string, cfg config, tier string, seed int64, work string, replayPath
 		return 2
 	}
 	return 0
+}
+
+// runStmtProbe builds cmd/c20probe with coverage instrumentation of the library and runs it in 16
+// worker processes; returns the path of the merged JSON (family name -> statement counts per size).
+func runStmtProbe(work string) (string, error) {
+	harness := filepath.Join(verifDir, "harness")
+	bin := filepath.Join(work, "c20probe")
+	args := []string{"build", "-cover", "-covermode=atomic", "-coverpkg=github.com/nlnwa/whatwg-url/...,verif/harness/cmd/c20probe", "-o", bin}
+	if repoDir != "/repo" {
+		args = append(args, "-modfile="+filepath.Join(work, "go.mod"))
+	}
+	args = append(args, "./cmd/c20probe")
+	cmd := exec.Command("go", args...)
+	cmd.Dir = harness
+	cmd.Env = goEnv()
+	if out, err := cmd.CombinedOutput(); err != nil {
+		return "", fmt.Errorf("building the probe: %v\n%s", err, out)
+	}
+	const workers = 16
+	merged := map[string][]uint64{}
+	var mu sync.Mutex
+	var wg sync.WaitGroup
+	var firstErr error
+	for w := 0; w < workers; w++ {
+		wg.Add(1)
+		go func(w int) {
+			defer wg.Done()
+			scratch := filepath.Join(work, fmt.Sprintf("probe-%d", w))
+			c := exec.Command(bin, scratch, strconv.Itoa(w), strconv.Itoa(workers))
+			c.Env = append(goEnv(), "GOCOVERDIR="+scratch)
+			_ = os.MkdirAll(scratch, 0o755)
+			var stdout, stderr bytes.Buffer
+			c.Stdout, c.Stderr = &stdout, &stderr
+			err := c.Run()
+			mu.Lock()
+			defer mu.Unlock()
+			if err != nil {
+				if firstErr == nil {
+					firstErr = fmt.Errorf("worker %d: %v: %s", w, err, tail(stderr.String(), 5))
+				}
+				return
+			}
+			var part map[string][]uint64
+			if err := json.Unmarshal(stdout.Bytes(), &part); err != nil {
+				if firstErr == nil {
+					firstErr = fmt.Errorf("worker %d output: %v", w, err)
+				}
+				return
+			}
+			for k, v := range part {
+				merged[k] = v
+			}
+			os.RemoveAll(scratch)
+		}(w)
+	}
+	wg.Wait()
+	if firstErr != nil {
+		return "", firstErr
+	}
+	path := filepath.Join(work, "c20-stmts.json")
+	data, _ := json.Marshal(merged)
+	if err := os.WriteFile(path, data, 0o644); err != nil {
+		return "", err
+	}
+	return path, nil
 }
 
 func oneLine(s string) string {
